@@ -89,7 +89,8 @@ fn enoent_candidate(call_line: &str) -> bool {
     let path = it.next().unwrap_or("");
     match c {
         "openw" | "creat" | "mkdir" | "symlink" => true,
-        "open" | "openat" => path.contains("/env/") || path.contains("/env.build/") || path.contains("/env.launch/"),
+        // only below <layers> (the platform's env directory is an input, listed among the optional files above)
+        "open" | "openat" => path.contains("/layers/") && (path.contains("/env/") || path.contains("/env.build/") || path.contains("/env.launch/")),
         _ => false,
     }
 }
